@@ -1377,9 +1377,12 @@ struct const_subarray : array_types<T, D, ElementPtr, Layout> {
 	constexpr auto diagonal_aux_() const  -> subarray<T, D-1, typename const_subarray::element_ptr> {
 		using boost::multi::detail::get;
 		auto square_size = (std::min)(get<0>(this->sizes()), get<1>(this->sizes()));  // paren for MSVC macros
-		multi::layout_t<D-1> new_layout{(*this)({0, square_size}, {0, square_size}).layout().sub()};
-		new_layout.nelems() += (*this)({0, square_size}, {0, square_size}).layout().nelems();  // TODO(correaa) : don't use mutation
-		new_layout.stride() += (*this)({0, square_size}, {0, square_size}).layout().stride();  // TODO(correaa) : don't use mutation
+		auto const first0 = get<0>(this->extensions().base()).first();  // the square block starts at the first valid indices, which need not be zero
+		auto const first1 = get<1>(this->extensions().base()).first();
+		multi::layout_t<D-1> new_layout{(*this)({first0, first0 + square_size}, {first1, first1 + square_size}).layout().sub()};
+		new_layout.nelems() += (*this)({first0, first0 + square_size}, {first1, first1 + square_size}).layout().nelems();  // TODO(correaa) : don't use mutation
+		new_layout.stride() += (*this)({first0, first0 + square_size}, {first1, first1 + square_size}).layout().stride();  // TODO(correaa) : don't use mutation
+		new_layout.reindex(0);  // the diagonal is zero-based
 		return {new_layout, types::base_};
 	}
 
